@@ -136,14 +136,14 @@ impl Ctx {
 
     pub fn mark_nontrivial(&mut self, rule: &Value, data: &Value) {
         self.nontrivial_total += 1;
-        if self.nontrivial.len() < 400_000 {
+        if self.nontrivial.len() < 60_000 {
             let h = hash_str(&rule.to_string()) ^ hash_str(&data.to_string()).rotate_left(31);
             self.nontrivial.insert(h);
         }
     }
     pub fn mark_nontrivial_key(&mut self, key: &str) {
         self.nontrivial_total += 1;
-        if self.nontrivial.len() < 400_000 {
+        if self.nontrivial.len() < 60_000 {
             self.nontrivial.insert(hash_str(key));
         }
     }
@@ -319,8 +319,8 @@ impl Ctx {
             .collect();
         let mut hashes: Vec<u64> = self.nontrivial.iter().cloned().collect();
         hashes.sort();
-        if hashes.len() > 250_000 {
-            hashes.truncate(250_000);
+        if hashes.len() > 60_000 {
+            hashes.truncate(60_000);
         }
         json!({
             "property": self.pid, "tier": self.tier, "seed": self.seed, "shard": self.shard, "nshards": self.nshards,
